@@ -448,6 +448,8 @@ func c06Run(o *out, input string) {
 
 func c06RunWS(o *out, input string, f []string) {
 	shape, texts, fin, recvN, outs, code := f[1], unhxs(f[2]), f[3], atoi(f[4]), unhxs(f[5]), atoi(f[6])
+	// "+b": every other client message travels in a binary data frame; "+f": messages are fragmented
+	shape, framing, _ := strings.Cut(shape, "+")
 	e := c06Setup(4096)
 	if e.lb == nil {
 		lb, err := newLoopback(e.mux)
@@ -472,15 +474,26 @@ func c06RunWS(o *out, input string, f []string) {
 		crd = br // frames that arrived together with the handshake response
 	}
 	conn.SetDeadline(time.Now().Add(15 * time.Second)) // a safety net only: every exchange ends with the server closing
-	for _, t := range texts {
+	for i, t := range texts {
 		payload := []byte(`{}`)
 		if len(t) > 0 {
 			payload = []byte(`{"text":"` + string(t) + `"}`)
 		}
-		fr := ws.MaskFrameInPlace(ws.NewTextFrame(payload))
-		if err := ws.WriteFrame(conn, fr); err != nil {
-			o.emit(input, "write-error")
-			return
+		var frs []ws.Frame
+		switch {
+		case framing == "b" && i%2 == 0:
+			frs = []ws.Frame{ws.NewBinaryFrame(payload)}
+		case framing == "f" && len(payload) > 2:
+			k := 1 + i%(len(payload)-1)
+			frs = []ws.Frame{ws.NewFrame(ws.OpText, false, append([]byte(nil), payload[:k]...)), ws.NewFrame(ws.OpContinuation, true, append([]byte(nil), payload[k:]...))}
+		default:
+			frs = []ws.Frame{ws.NewTextFrame(payload)}
+		}
+		for _, fr := range frs {
+			if err := ws.WriteFrame(conn, ws.MaskFrameInPlace(fr)); err != nil {
+				o.emit(input, "write-error")
+				return
+			}
 		}
 	}
 	switch {
@@ -1023,10 +1036,10 @@ func c06Gen(o *out, r *rng, tier string) {
 		for j := 0; j < n; j++ {
 			texts = append(texts, []byte(c06Texts((j*2+i)%4, byte(i+j))))
 		}
-		shape := []string{"bidi", "client"}[i%2]
-		wsrun(shape, texts, "c1000", -1, nil, 0)                           // the client ends the stream
-		wsrun("bidi", texts, "none", n, outsOf(i%5), []int{0, 3, 13}[i%3]) // the server ends the call
-		wsrun(shape, texts, "abort", -1, nil, 0)                           // the connection breaks
+		shape := []string{"bidi", "client"}[i%2] + []string{"", "+b", "+f"}[i/2%3]
+		wsrun(shape, texts, "c1000", -1, nil, 0)                                                           // the client ends the stream
+		wsrun("bidi"+[]string{"", "+b", "+f"}[i/2%3], texts, "none", n, outsOf(i%5), []int{0, 3, 13}[i%3]) // the server ends the call
+		wsrun(shape, texts, "abort", -1, nil, 0)                                                           // the connection breaks
 		if i%3 == 0 {
 			wsrun(shape, texts, "c1001", -1, nil, 0)
 			wsrun(shape, texts, "c0", -1, nil, 0)
